@@ -90,12 +90,16 @@ def findRootClasses(
             continue
         if cls.bases:
             for name, base in zip(cls.bases, cls.baseobjects):
-                if base is None or not base.isVisible:
-                    # The base object is in an external library or filtered out (not visible)
+                if base is None:
+                    # The base object is in an external library
                     # Take special care to avoid AttributeError: 'Class' object has no attribute 'append'.
                     if isinstance(roots.get(name), model.Class):
                         roots[name] = [cast(model.Class, roots[name])]
                     cast(List[model.Class], roots.setdefault(name, [])).append(cls)
+                elif not base.isVisible:
+                    # The base object is filtered out (not visible): it must not be 
+                    # named in the index, the class is presented like a root class.
+                    roots[cls.fullName()] = cls
                 elif base.system is not system:
                     # Edge case with multiple systems, is it even possible to run into this code?
                     roots[base.fullName()] = base
